@@ -325,8 +325,14 @@ CHECKS = {
           "(negative at 221); for the CURRENT source the normalisation is "
           "evaluated in double and is exact for every degree (otherwise the "
           "theorem carries the degree-217 witness); with unit node weights "
-          "the n.s.i. degree term equals degree + 1. The cliquishness kernels "
-          "are modelled and compared inside Coq. Everything else is "
+          "the n.s.i. degree term equals degree + 1; for the textbook "
+          "definitions of Model/GraphDefs.v: handshake lemma (degrees add up "
+          "to twice the links), local clustering and transitivity lie in "
+          "[0,1], the shortest-path distance is attained and minimal, paths "
+          "concatenate. The cliquishness kernels and those definitions "
+          "(degree, links, local / global clustering, transitivity, average "
+          "neighbours degree, path lengths) are compared with the library "
+          "inside Coq on exhaustive small graphs. Everything else is "
           "translation validation of the library calls: 26 measures against "
           "direct NumPy / BFS / brute-force definitions on exhaustive small "
           "graphs, random graphs, families and a degree-224 hub; spectral "
